@@ -77,10 +77,12 @@ impl<Z: Zeroize, const N: usize> Zeroize for [Z; N] {
 }
 
 // arrayvec (feature "zeroize"): `impl<Z: Zeroize, const CAP: usize> Zeroize for ArrayVec<Z, CAP>`:
-// zeroes the elements, clears, zeroes the backing array. In the abstract view: empty afterwards.
+// zeroes the elements, clears, zeroes the backing array: empty afterwards and `spare_clean()`.
 impl<Z: ZeroizeSpec, const CAP: usize> ZeroizeSpec for crate::arrayvec::ArrayVec<Z, CAP> {
     open spec fn zeroed(&self) -> bool {
-        self@.len() == 0
+        // empty AND the spare capacity holds no bytes of former elements (popped chaining values stay in the
+        // backing array until arrayvec's Zeroize impl wipes it)
+        self@.len() == 0 && self.spare_clean()
     }
 }
 
